@@ -85,6 +85,8 @@ type sessUDP struct {
 	in2    []byte
 	inLen2 int
 	reads  int
+	// read deadline currently armed on the socket (zero time = none)
+	deadlineArmed bool
 }
 
 func (u *sessUDP) ReadMsgUDP(b, oob []byte) (int, int, int, *net.UDPAddr, error) {
@@ -102,7 +104,10 @@ func (u *sessUDP) Close() error                       { return nil }
 func (u *sessUDP) LocalAddr() net.Addr                { return nil }
 func (u *sessUDP) RemoteAddr() net.Addr               { return nil }
 func (u *sessUDP) SetDeadline(t time.Time) error      { return nil }
-func (u *sessUDP) SetReadDeadline(t time.Time) error  { return nil }
+func (u *sessUDP) SetReadDeadline(t time.Time) error {
+	u.deadlineArmed = !t.IsZero()
+	return nil
+}
 func (u *sessUDP) SetWriteDeadline(t time.Time) error { return nil }
 
 func (u *sessUDP) WriteMsgUDP(b, oob []byte, addr *net.UDPAddr) (int, int, error) {
